@@ -928,6 +928,70 @@ class Run:
                 vals.append([v for _, v in subs])
         return {"kind": "nested", "fields": fields}, vals
 
+    def intent_checks(self, rng, p, obj, cls, cn, packed, ends_raw, rep):
+        """hand-written constructors: (1) constructor arguments -> attributes vs the model's `init`; (2) a value that lies in
+        the wire domain of its field must be stored unchanged; (3) the bytes are the golden bytes of the INTENDED values;
+        (4) a datagram built by a conforming peer from the intended values (independent encoder) decodes to those values,
+        consumes exactly its bytes and re-encodes to itself"""
+        ctx = self.ctx
+        intent = obj._c02_intent
+        spec = OLD[type(obj).__name__]
+        try:
+            atoks = ",".join(old_attr_token(t, intent[a]) for a, t in spec["attrs"] if a in intent)
+            self.model(f"old {p['name']} init R({atoks})", "ok " + self.attr_tokens(p, obj, None), rep)
+        except Exception:
+            pass
+        wire = {w["attr"]: w["fmt"] for w in self.spec.get("old_wire", {}).get(p["name"], []) if "attr" in w}
+        in_domain = {}
+        for a, v in intent.items():
+            if a in wire:
+                try:
+                    doc_encode(self.doc[wire[a]], v)
+                except Exception:
+                    ctx.count("ctor_arg:out-of-domain")
+                    continue
+            in_domain[a] = v
+            if a in wire and self.doc[wire[a]]["kind"] == "struct" and isinstance(v, int) and not isinstance(v, bool):
+                top = 256 ** self.doc[wire[a]]["fields"][0][1]
+                ctx.count("ctor_int_arg:" + ("max" if v == top - 1 else "zero" if v == 0 else "other"))
+            if not same_field(getattr(obj, a, "<missing>"), v):
+                ctx.oracle_fail(f"{cn}.__init__:in-domain-value-changed", f"{cn}({a}={short_repr(v, 60)}) stores {a} = "
+                                f"{short_repr(getattr(obj, a, '<missing>'), 60)} although the value is in the field's wire domain", rep)
+
+        class Shim:
+            def __getattr__(self_inner, name):
+                return in_domain[name] if name in in_domain else getattr(obj, name)
+        try:
+            gi = self.golden(p["name"], Shim())
+        except Exception:
+            return
+        if gi is None:
+            return
+        if gi != packed:
+            ctx.oracle_fail(f"{cn}:value-to-bytes", f"{cn} constructed from {short_repr(in_domain, 200)} is encoded as "
+                            f"{packed.hex()[:120]}; these values in the documented layout are {gi.hex()[:120]}", rep)
+        pre, post = self.embed(rng, gi, ends_raw)
+        data, off = pre + gi + post, len(pre)
+        rep = {**rep, "offset": off, "data": data.hex()[:800], "foreign": True}
+        try:
+            got, new = self.ser.unpack_serializable(cls, data, off)
+        except Exception as e:
+            ctx.oracle_fail(f"{cn}:foreign-datagram", f"a conforming {cn} datagram (fields {short_repr(in_domain, 160)}) raises "
+                            f"{type(e).__name__}: {e} when decoded at offset {off}", rep)
+            return
+        for a, v in in_domain.items():
+            if not same_field(v, getattr(got, a, "<missing>")):
+                ctx.oracle_fail(f"{cn}:foreign-datagram", f"a conforming {cn} datagram carrying {a} = {short_repr(v, 60)} decodes to "
+                                f"{a} = {short_repr(getattr(got, a, '<missing>'), 60)}", rep)
+        if new != off + len(gi):
+            ctx.oracle_fail(f"{cn}:foreign-datagram", f"a conforming {cn} datagram of {len(gi)} bytes at {off} is consumed up to {new}", rep)
+        try:
+            if self.ser.pack_serializable(got) != gi:
+                ctx.oracle_fail(f"{cn}:foreign-datagram", f"re-encoding a decoded conforming {cn} datagram changes the bytes", rep)
+        except Exception as e:
+            ctx.oracle_fail(f"{cn}:foreign-datagram", f"re-encoding a decoded conforming {cn} datagram raises {type(e).__name__}", rep)
+        ctx.count("foreign_datagram")
+
     def load_class(self, qn):
         import importlib
         mod, _, cn = qn.rpartition(".")
@@ -1053,6 +1117,8 @@ class Run:
                 ctx.oracle_fail(f"{cn}:doc-bytes", f"{cn} is encoded as {packed.hex()[:160]} but its fields in the frozen wire layout "
                                 f"with the documented formats give {gold.hex()[:160]}", {**rep, "bytes": packed.hex()[:600],
                                                                                            "documented": gold.hex()[:600]})
+        if getattr(obj, "_c02_intent", None):
+            self.intent_checks(rng, p, obj, cls, cn, packed, ends_raw, rep)
         if mode == "plain":
             pre, post = self.embed(rng, packed, ends_raw)
             data, off = pre + packed + post, len(pre)
@@ -1586,6 +1652,147 @@ class Run:
             for lf in leafs:
                 _sys.modules[__name__].__dict__.pop(lf["cls"].__name__, None)
 
+    # --- section: several overlays in one process, each with its own registrations -------------------------------------------
+    ISO_FRESH = ["digest", "blob", "seq", "tag"]
+    ISO_OVERRIDE = ["varlenH", "H", "20s", "varlenI", "Q", "varlenHx20"]
+
+    def iso_desc(self, rng):
+        r = rng.random()
+        if r < 0.35:
+            return {"kind": "struct", "fields": [["fixed", rng.choice([8, 20, 32, 64])]]}
+        if r < 0.6:
+            return {"kind": "struct", "fields": [["uint", rng.choice([1, 2, 4, 8])]]}
+        return {"kind": "varlen", "len_width": rng.choice([1, 2, 4]), "unit": rng.choice([1, 1, 2, 20])}
+
+    @staticmethod
+    def iso_packer(d):
+        from ipv8.messaging.serialization import DefaultStruct, VarLen
+        if d["kind"] == "struct":
+            k, w = d["fields"][0]
+            return DefaultStruct(">" + (f"{w}s" if k == "fixed" else {1: "B", 2: "H", 4: "I", 8: "Q"}[w]))
+        return VarLen({1: ">B", 2: ">H", 4: ">I"}[d["len_width"]], d["unit"])
+
+    def overlay_isolation(self, n: int):
+        """configurations: 2..5 overlays created in one process in random order; each `get_serializer` registers 0..3 packers
+        on top of `super().get_serializer()` under fresh names, names other overlays also use, or default names it
+        overrides; serializers of the shipped DHT / tunnel overlays are created in between.  Afterwards EVERY overlay's
+        serializer must resolve every name to its own last registration, else to the default packer, must know no other
+        names, and `default_serializer` must still be the documented table."""
+        import asyncio
+        from ipv8.community import Community, CommunitySettings
+        from ipv8.keyvault.crypto import default_eccrypto
+        from ipv8.messaging.serialization import Serializer, default_serializer
+        from ipv8.peer import Peer
+        from ipv8.peerdiscovery.network import Network
+        from ipv8.test.mocking.endpoint import AutoMockEndpoint
+        ctx = self.ctx
+        reg = self.info["registry"]
+        origin = self.info.get("origin", {})
+        extra_names = sorted(nm for nm in reg if origin.get(nm, "Serializer") != "Serializer")
+        defaults = {nm: d for nm, d in reg.items() if nm not in extra_names}
+        excl = ",".join(extra_names) or "-"
+        shipped = []
+        try:
+            from ipv8.dht.community import DHTCommunity
+            from ipv8.messaging.anonymization.community import TunnelCommunity
+            shipped = [DHTCommunity, TunnelCommunity]
+        except Exception:
+            pass
+
+        async def scenario(idx):
+            rng = self.rng_for("overlays", idx)
+            count = rng.choice([2, 2, 3, 4, 5])
+            plans = []
+            for k in range(count):
+                r = rng.random()
+                if shipped and r < 0.2:
+                    plans.append(("shipped", rng.choice(shipped)))
+                else:
+                    regs = []
+                    for _ in range(rng.choice([0, 1, 1, 2, 3])):
+                        pool = self.ISO_FRESH if rng.random() < 0.6 else self.ISO_OVERRIDE
+                        regs.append((rng.choice(pool), self.iso_desc(rng)))
+                    plans.append(("adhoc", regs))
+            my_peer = Peer(default_eccrypto.generate_key("curve25519"))
+            overlays, sers, model_regs = [], [], []
+            for k, (kind, what) in enumerate(plans):
+                if kind == "shipped":
+                    ser = object.__new__(what).get_serializer()
+                    own = {nm: gen_c02.packer_to_desc(ser.get_packer_for(nm), nm) for nm in extra_names
+                           if origin.get(nm) == what.__qualname__}
+                    ctx.count("iso_overlay:shipped")
+                else:
+                    regs = what
+
+                    def get_serializer(self_, _regs=regs, _k=k):
+                        ser_ = super(classes[_k], self_).get_serializer()
+                        for nm, d in _regs:
+                            ser_.add_packer(nm, Run.iso_packer(d))
+                        return ser_
+                    classes[k] = type(f"Iso{idx}_{k}", (Community,), {"community_id": bytes([k + 1]) * 20,
+                                                                      "get_serializer": get_serializer})
+                    ov = classes[k](CommunitySettings(my_peer=my_peer, endpoint=AutoMockEndpoint(), network=Network()))
+                    overlays.append(ov)
+                    ser = ov.serializer
+                    own = {}
+                    for nm, d in regs:
+                        own[nm] = d
+                    ctx.count("iso_overlay:adhoc:%d-registrations" % len(regs))
+                    for nm, _ in regs:
+                        ctx.count("iso_registration:" + ("override-default" if nm in defaults else "fresh-name"))
+                sers.append(ser)
+                model_regs.append("&".join(f"{nm}={fmt_token(d)}" for nm, d in (what if kind == "adhoc" else own.items())) or "-")
+                plans[k] = (kind, what, own)
+            names_used = sorted({nm for _, _, own in plans for nm in own})
+            shared = sum(1 for nm in names_used if sum(1 for _, _, own in plans if nm in own) > 1)
+            ctx.count("iso_scenario:" + ("name-shared-between-overlays" if shared else "distinct-names"))
+            probe = names_used + rng.sample(sorted(defaults), 3) + extra_names
+            model_overlays = "|".join(model_regs)
+            targets = [(str(k), sers[k], plans[k][2]) for k in range(count)] + [("d", default_serializer, {}), ("f", Serializer(), {})]
+            for kname, ser, own in targets:
+                rep = {"section": "overlays", "index": idx, "overlay": kname,
+                       "registrations": [[pl[0], pl[1] if pl[0] == "adhoc" else pl[1].__name__] for pl in plans]}
+                expected_names = set(defaults) | set(own)
+                have = set(ser.get_available_formats())
+                if have != expected_names:
+                    ctx.oracle_fail("Overlay.get_serializer:isolation", f"the serializer of overlay {kname} knows the formats "
+                                    f"{sorted(have ^ expected_names)} that are not its own / misses its own, after creating overlays with "
+                                    f"{model_regs}", rep)
+                for nm in probe:
+                    want = own.get(nm, defaults.get(nm))
+                    try:
+                        got = gen_c02.packer_to_desc(ser.get_packer_for(nm), nm)
+                    except KeyError:
+                        got = None
+                    except TranslatorError:
+                        continue
+                    if (got or {}).get("kind") in ("payload", "payloadList") or (want or {}).get("kind") in ("payload", "payloadList"):
+                        continue
+                    if kname != "f":
+                        self.model(f"reg {excl} {model_overlays} {kname} {nm}", fmt_token(got) if got else "none", rep)
+                    if got != want:
+                        msg = f"overlay {kname} resolves {nm!r} to {fmt_token(got) if got else None}, its own registration / the default is " \
+                              f"{fmt_token(want) if want else None}"
+                        if got and want:
+                            v = gen_value(rng, want, None)
+                            try:
+                                b = ser.pack(nm, v)
+                                msg += f": {short_repr(v, 60)} is encoded as {b.hex()[:60]} instead of {doc_encode(want, v).hex()[:60]}"
+                            except Exception as e:
+                                msg += f": packing {short_repr(v, 60)} raises {type(e).__name__}"
+                        ctx.oracle_fail("Overlay.get_serializer:isolation", msg + f" (overlays: {model_regs})", rep)
+                    ctx.case(("overlays", idx, kname, nm), True)
+            for ov in overlays:
+                await ov.unload()
+
+        async def body():
+            for idx in range(1, n + 1):
+                if self.want("overlays", idx):
+                    classes.clear()
+                    await scenario(idx)
+        classes: dict = {}
+        asyncio.run(body())
+
     # --- section: truncated / inflated encodings (decode side of the model only; the property itself is C03's) -----------
     def truncated(self, n: int):
         ctx, rng = self.ctx, self.rng_for("trunc")
@@ -1839,7 +2046,10 @@ def gen_old(rng, cls, ctx):
     if spec is None:
         return None, None        # a hand-written payload the harness has no constructor recipe for: counted, not judged
     args = spec["gen"](rng)
-    return cls(*args), [a for a, _ in spec["attrs"]]
+    obj = cls(*args)
+    # what the caller asked for, per attribute (constructor arguments are in attribute order for every modelled class)
+    obj.__dict__["_c02_intent"] = {a: v for (a, _), v in zip(spec["attrs"], args)}
+    return obj, [a for a, _ in spec["attrs"]]
 
 
 def old_attr_token(t, v) -> str:
@@ -1897,10 +2107,11 @@ def live_info(ctx: Ctx):
 def SCALE(ctx):
     return {"packers": ctx.scale(120, 800), "classes": ctx.scale(80, 600), "adhoc": ctx.scale(1500, 15000),
             "cells": ctx.scale(200, 2000), "ulists": ctx.scale(400, 4000), "trunc": ctx.scale(5000, 50000),
-            "sweep": ctx.scale(12, 64), "dataclass": ctx.scale(300, 3000)}
+            "sweep": ctx.scale(12, 64), "dataclass": ctx.scale(300, 3000),
+            "overlays": ctx.scale(80, 600)}
 
 
-SEARCH_SCALE = {"packers": 300, "classes": 200, "adhoc": 3000, "cells": 300, "ulists": 500, "trunc": 0, "sweep": 8, "dataclass": 600}
+SEARCH_SCALE = {"packers": 300, "classes": 200, "adhoc": 3000, "cells": 300, "ulists": 500, "trunc": 0, "sweep": 8, "dataclass": 600, "overlays": 150}
 
 
 def sections(r: Run, ctx: Ctx, scale):
@@ -1915,6 +2126,7 @@ def sections(r: Run, ctx: Ctx, scale):
     r.classes(scale["classes"])
     r.adhoc(scale["adhoc"])
     r.dataclass_histories(scale["dataclass"])
+    r.overlay_isolation(scale["overlays"])
     r.cells(scale["cells"])
     r.ulists(scale["ulists"])
     r.truncated(scale["trunc"])
@@ -1981,6 +2193,8 @@ def replay(ctx: Ctx, info, spec):
             r.old_exhaustive()
         elif section == "dataclass":
             r.dataclass_histories(scale["dataclass"])
+        elif section == "overlays":
+            r.overlay_isolation(scale["overlays"])
         if ctx.failures:
             break
     ctx.searching = False
